@@ -194,6 +194,10 @@ type Catch struct {
 	Fallback Expr // nil = handler must return
 }
 type Len struct{ X Expr }
+
+// NoneLit is the empty optional `none`; Coalesce is `X ?? D`.
+type NoneLit struct{}
+type Coalesce struct{ X, D Expr }
 type Paren struct{ X Expr }
 
 // ---------------------------------------------------------------- statements
